@@ -438,11 +438,46 @@ pub fn emergency_exit(sig: i32, addr: u64, rip: u64, bytes: &[u8]) -> ! {
         unsafe { libc::_exit(2) };
     }
     let rep = unsafe { &mut *e.report };
-    let fault = J::obj(vec![("signal", J::I(sig as i64)), ("fault_address", J::hex(addr)), ("rip", J::hex(rip)), ("code_bytes", J::s(format!("{:02x?}", bytes)))]);
-    let applies = match e.attribution_filter {
-        Some(f) => f(bytes),
-        None => true,
-    };
+    // Where did the fault happen? Only a fault inside the code of the crate under test may be blamed on it; a fault in
+    // the harness itself is a harness problem (inconclusive), never a violation.
+    let bt = std::backtrace::Backtrace::force_capture().to_string();
+    let mut in_crate = false;
+    let mut decided = false;
+    let mut past_handler = false;
+    let mut first_frames: Vec<String> = Vec::new();
+    for line in bt.lines() {
+        let l = line.trim();
+        if !l.contains(": ") || l.starts_with("at ") {
+            continue;
+        }
+        if !past_handler {
+            if l.contains("trapemu") && l.contains("handler") {
+                past_handler = true;
+            }
+            continue;
+        }
+        if first_frames.len() < 6 {
+            first_frames.push(l.to_string());
+        }
+        if !decided {
+            // "N: <path::to::function<generics>>": the leading path says whose code the frame is
+            let sym = l.splitn(2, ": ").nth(1).unwrap_or("").trim_start_matches('<');
+            if sym.starts_with("x86_64::") {
+                in_crate = true;
+                decided = true;
+            } else if sym.starts_with("vx::") {
+                decided = true;
+            }
+        }
+    }
+    let applies = in_crate
+        && match e.attribution_filter {
+            Some(f) => f(bytes),
+            None => true,
+        };
+    // a filtered attribution (e.g. an in/out instruction executed outside its call) is about the instruction itself
+    let applies = applies || (e.attribution_filter.map(|f| f(bytes)).unwrap_or(false));
+    let fault = J::obj(vec![("signal", J::I(sig as i64)), ("fault_address", J::hex(addr)), ("rip", J::hex(rip)), ("code_bytes", J::s(format!("{:02x?}", bytes))), ("innermost_frames", J::A(first_frames.iter().map(|f| J::s(f.clone())).collect()))]);
     let attr = if applies { e.attribution.take() } else { None };
     match attr {
         Some((prop, sig_s, detail)) => {
@@ -450,7 +485,7 @@ pub fn emergency_exit(sig: i32, addr: u64, rip: u64, bytes: &[u8]) -> ! {
             code = 1;
         }
         None => {
-            rep.inconclusive = Some(format!("fatal signal {} at rip={:#x} addr={:#x} bytes={:02x?}", sig, rip, addr, bytes));
+            rep.inconclusive = Some(format!("fatal signal {} at rip={:#x} addr={:#x} bytes={:02x?} frames={:?}", sig, rip, addr, bytes, first_frames));
             code = 2;
         }
     }
